@@ -454,8 +454,10 @@ theorem writer_wf_table_partial {s s' : WState} {cat : Obj} {info : Option Obj} 
     split at hb
     · simp at hb
     · rename_i hh
-      simp only [Option.some.injEq] at hb
-      exact ⟨hb.symm, by simpa using hh⟩
+      split at hb
+      · simp at hb
+      · simp only [Option.some.injEq] at hb
+        exact ⟨hb.symm, by simpa using hh⟩
   obtain ⟨hbody, hnoStm⟩ := hbody
   -- no compressed entries
   have hins : ∀ n e, s2.xref.get n = some e → e.inStream = 0 := by
